@@ -44,6 +44,9 @@ class Contract:
     assumptions = ()
     max_paths = 4000
     timeout_ms = 20000
+    # back end credited for a clause whose formula the executor reduced to a ground truth value before any solver query
+    # (exact evaluation in a term / polynomial / field model); clauses that reach the solver are credited to z3 or cvc5
+    ground_backend = "ground-evaluation"
 
     def structures(self, tier):
         return [("-", None)]
@@ -221,6 +224,7 @@ def run_structure(contract, label, st, mutant=None, stop_on_refute=False):
             setc("raises_only_when_allowed", "discharged")
         hints = [_formula(h) for h in contract.hints(ctx, pr.extra)]
         for clause, f in post:
+            ground = not (isinstance(f, SV) or z3.is_expr(f))
             f = _formula(f)
             s = z3.Solver()
             s.set("timeout", contract.timeout_ms)
@@ -233,7 +237,8 @@ def run_structure(contract, label, st, mutant=None, stop_on_refute=False):
             solver_s += dt
             queries += 1
             if r == z3.unsat:
-                backends["z3"] += 1
+                bk = contract.ground_backend if ground else "z3"
+                backends[bk] = backends.get(bk, 0) + 1
                 setc(clause, "discharged")
             elif r == z3.sat:
                 m = s.model()
